@@ -22,6 +22,8 @@ class Nlp:
         self.x0 = np.array(opti.debug.value(opti.x, opti.initial())).reshape(-1) if self.nx else np.zeros(0)
         self.p0 = np.array(opti.debug.value(opti.p, opti.initial())).reshape(-1) if self.np_ else np.zeros(0)
         self.rb_names = []
+        self.n_extra = 0
+        self.extra_fixed = {}
         self.extra0 = np.zeros(0)
         self.extras = []
         self.R = None
